@@ -206,6 +206,15 @@ func c19TypeErr(c *fw.Case) {
 	if !mustFail(c, o, "type error in "+q.name, det) {
 		return
 	}
+	// the same failing query again, in the same process: a failure must not
+	// leave anything behind (parse caches, memos) that makes the next attempt
+	// look successful
+	for rep := 2; rep <= 3; rep++ {
+		again := Run(d.fresh(), q.sql)
+		if !mustFail(c, again, fmt.Sprintf("type error in %s, attempt %d of the same query", q.name, rep), det) {
+			return
+		}
+	}
 	if !followUp(c, used, d.doc, det) {
 		return
 	}
